@@ -64,6 +64,8 @@ func spec(nonce int) []byte {
 			"field": map[string]any{"type": "string"}, "dir": map[string]any{"type": "string", "default": "asc"}}}},
 		"grid": map[string]any{"type": "array", "default": []any{[]any{map[string]any{}}}, "items": map[string]any{"type": "array", "items": map[string]any{"type": "object", "properties": map[string]any{
 			"cell": map[string]any{"type": "integer", "default": 1}}}}},
+		// a schema with a list of types, shared with a query parameter: the order of the list says how text is read
+		"tid": map[string]any{"$ref": "#/components/schemas/Tid"},
 		"kind": map[string]any{"oneOf": []any{map[string]any{"type": "string", "enum": []any{"x"}}, map[string]any{"type": "integer", "minimum": 5}}},
 	}}
 	doc := kinx.Doc(map[string]any{
@@ -82,7 +84,8 @@ func spec(nonce int) []byte {
 					"content": map[string]any{"application/json": map[string]any{"schema": map[string]any{"type": "array", "items": map[string]any{"$ref": "#/components/schemas/Item"}}}}}},
 			},
 			"head": map[string]any{"responses": map[string]any{"200": map[string]any{"description": "ok"}}},
-			"get": map[string]any{"parameters": []any{map[string]any{"name": "verbose", "in": "query", "required": true, "schema": map[string]any{"type": "boolean"}}},
+			"get": map[string]any{"parameters": []any{map[string]any{"name": "verbose", "in": "query", "required": true, "schema": map[string]any{"type": "boolean"}},
+				map[string]any{"name": "tid", "in": "query", "schema": map[string]any{"$ref": "#/components/schemas/Tid"}}},
 				"responses": map[string]any{"200": map[string]any{"description": "ok"}}},
 			"delete": map[string]any{"parameters": []any{map[string]any{"name": "X-Confirm", "in": "header", "required": true, "schema": map[string]any{"type": "string", "enum": []any{"yes"}}}},
 				"responses": map[string]any{"204": map[string]any{"description": "gone"}}},
@@ -114,6 +117,7 @@ func spec(nonce int) []byte {
 		"Pet": map[string]any{"oneOf": []any{map[string]any{"$ref": "#/components/schemas/Dog"}, map[string]any{"$ref": "#/components/schemas/Cat"}},
 			"discriminator": map[string]any{"propertyName": "petType", "mapping": map[string]any{"dog": "Dog", "cat": "#/components/schemas/Cat"}}},
 		"Code": map[string]any{"pattern": "^[A-Z]{3}$"},
+		"Tid":  map[string]any{"type": []any{"string", "integer"}, "maximum": 100},
 		"Dog": map[string]any{"type": "object", "required": []any{"petType"}, "properties": map[string]any{"petType": map[string]any{"type": "string"}, "bark": map[string]any{"type": "boolean"},
 			"code": map[string]any{"$ref": "#/components/schemas/Code"}}},
 		"Cat": map[string]any{"type": "object", "required": []any{"petType"}, "properties": map[string]any{"petType": map[string]any{"type": "string"}, "lives": map[string]any{"type": "integer", "maximum": 9}}},
@@ -181,6 +185,8 @@ func (w *world) bodies() []string {
 		fmt.Sprintf(`{"code":"an%d","kind":3}`, n),
 		fmt.Sprintf(`{"code":"an%d","opt":{"deep":"given"},"n":1,"kind":9}`, n),
 		`{"tags":[]}`,
+		fmt.Sprintf(`{"code":"abn%d","tid":true}`, n),
+		fmt.Sprintf(`{"code":"abn%d","tid":"500"}`, n),
 		// upper case: matches the pattern only under the case-insensitive regex compiler of the "-ci" operations
 		fmt.Sprintf(`{"code":"ABn%d","tags":["T%d1"]}`, n, n),
 	}
@@ -223,6 +229,9 @@ func (w *world) request(variant int) *http.Request {
 		vq := "?verbose=true"
 		if variant%2 == 0 {
 			vq = ""
+		}
+		if variant%4 == 1 {
+			vq += "&tid=500" // the text 500: a string, as the list has it first
 		}
 		req, _ := http.NewRequest("GET", "http://localhost/items/"+id+vq, nil)
 		return req
